@@ -56,7 +56,7 @@ pub trait Expanded<'a, Views, Containments, Indices, CanonicalContainments, Resh
     resource::Resources
 {
     /// The canonical form of the `Views` with respect to the resources.
-    type Canonical: Reshape<Views, ReshapeIndices>;
+    type Canonical;
 
     fn view(&'a mut self) -> Views;
 
@@ -126,8 +126,8 @@ impl<
         Indices,
         CanonicalContainment,
         CanonicalContainments,
-        ReshapeIndex,
         ReshapeIndices,
+        TailReshapeIndices,
     >
     Expanded<
         'a,
@@ -135,7 +135,7 @@ impl<
         (Contained, Containments),
         (Index, Indices),
         (CanonicalContainment, CanonicalContainments),
-        (ReshapeIndex, ReshapeIndices),
+        (ReshapeIndices, TailReshapeIndices),
     > for (Resource, Resources)
 where
     Views: view::resource::Get<Resource, Index>,
@@ -145,14 +145,14 @@ where
         Containments,
         Indices,
         CanonicalContainments,
-        ReshapeIndices,
+        TailReshapeIndices,
     >,
     (Resource, Resources): CanonicalViews<
         'a,
         (Views::View, Resources::Canonical),
         (CanonicalContainment, CanonicalContainments),
     >,
-    (Views::View, Resources::Canonical): Reshape<Views, (ReshapeIndex, ReshapeIndices)>,
+    (Views::View, Resources::Canonical): Reshape<Views, ReshapeIndices>,
 {
     type Canonical = (Views::View, Resources::Canonical);
 
